@@ -32,6 +32,7 @@ def gen_faketrx(ctx):
         consts = [("nominal_tx_power_default", F.NOMINAL_TX_POWER_DEFAULT), ("tx_att_default", F.TX_ATT_DEFAULT), ("path_loss_default", F.PATH_LOSS_DEFAULT),
                   ("toa256_base_default", F.TOA256_BASE_DEFAULT), ("ci_base_default", F.CI_BASE_DEFAULT),
                   ("toa256_noise_default", F.TOA256_NOISE_DEFAULT), ("rssi_noise_default", F.RSSI_NOISE_DEFAULT), ("ci_noise_default", F.CI_NOISE_DEFAULT)]
+        consts.append(("trxc_delay_ms_max", F.TRXC_DELAY_MS_MAX))
         pm = s.app.fake_pm
         consts += [("pm_noise_min", pm.noise_min), ("pm_noise_max", pm.noise_max), ("pm_trx_min", pm.trx_min), ("pm_trx_max", pm.trx_max)]
         consts.append(("ctrl_recv_size", probe_recv_size(t.ctrl_if.handle_rx, t.ctrl_if.sock, lambda: b"CMD NOP\0")))
